@@ -55,7 +55,8 @@ func init() {
 	register("C19", "apply", 2, simC19Apply)
 	register("C19", "pathsets", 2, simC19PathSets)
 	register("C17", "store", 1, simC17Store)
-	register("C06", "monitor", 1, simC06Monitor)
+	register("C06", "monitor", 2, simC06Monitor)
+	register("C06", "conversions", 1, simC06Conversions)
 }
 
 func pickSim(prop string, index uint64) simEntry {
